@@ -3,6 +3,7 @@ import Rbp.Proofs.Record
 import Rbp.Proofs.Layout
 import Rbp.Proofs.BlkName
 import Rbp.Proofs.Consulted
+import Rbp.Proofs.KeyOrder
 /-!
 # C03 — a block is read from the file and offset its index record names, wherever it is
 -/
@@ -109,6 +110,31 @@ theorem foreign_keys_ignored (k v : W.Bytes) (b : UInt8) (rest : W.Bytes) (hk : 
     (l : List (W.Bytes × W.Bytes)) (acc : List Wk.Rec) : collect.go ((k, v) :: l) acc = collect.go l acc := by
   subst hk
   simp [collect.go, hb]
+
+/-- the model visits the index in LevelDB's order: `lexLt` (the bytewise comparator) is a strict total order and the visiting
+    sequence is ascending in it — a permutation of the pairs (`sortKvs_perm`) that is sorted by key -/
+theorem index_visited_in_key_order (kvs : List (W.Bytes × W.Bytes)) :
+    (sortKvs kvs).Perm kvs ∧ (sortKvs kvs).Pairwise (fun x y => lexLt y.1 x.1 = false) ∧
+    (∀ a b, lexLt a b = true → lexLt b a = false) ∧ (∀ a b c, lexLt a b = true → lexLt b c = true → lexLt a c = true) ∧
+    (∀ a b, lexLt a b = false → lexLt b a = false → a = b) :=
+  ⟨sortKvs_perm kvs, sortKvs_sorted kvs, lexLt_asymm, lexLt_trans, lexLt_total⟩
+
+/-- **whole program, any physical arrangement of the index database.**  A LevelDB's keys are pairwise distinct; in whatever
+    order the same key/value pairs reach the parser (order of `.ldb`/`.log` files, compaction levels, the order in which a
+    tool wrote them), the whole run — exit status, report, delivered heights and hashes, every output file, stdout, the
+    Opening/Closing trace — is the same, for every option set, XOR key and blk directory -/
+theorem index_arrangement_irrelevant (o : Opts) (key : Option W.Bytes) (kvs₁ kvs₂ : List (W.Bytes × W.Bytes)) (fs : List BlkFile)
+    (hp : kvs₁.Perm kvs₂) (hd : (kvs₁.map (·.1)).Nodup) : main o key kvs₁ fs = main o key kvs₂ fs :=
+  main_order_independent o key kvs₁ kvs₂ fs hp hd
+
+/-- non-vacuity of `index_arrangement_irrelevant`: two arrangements of three distinct keys, one of them foreign -/
+example : ([([0x62, 2], [1]), ([0x66, 0], [2]), ([0x62, 1], [3])] : List (W.Bytes × W.Bytes)).Perm
+      [([0x62, 1], [3]), ([0x62, 2], [1]), ([0x66, 0], [2])] ∧
+    (([([0x62, 2], [1]), ([0x66, 0], [2]), ([0x62, 1], [3])] : List (W.Bytes × W.Bytes)).map (·.1)).Nodup ∧
+    sortKvs [([0x62, 2], [1]), ([0x66, 0], [2]), ([0x62, 1], [3])] = [([0x62, 1], [3]), ([0x62, 2], [1]), ([0x66, 0], [2])] := by
+  refine ⟨?_, by decide, by decide⟩
+  exact (List.Perm.swap _ _ _).trans ((List.Perm.swap _ _ _).cons _) |>.symm |> fun h => by
+    first | exact h | decide
 
 /-- non-vacuity: both sides of the 1/2-byte VarInt boundary, the 2/3-byte boundary, and the `+1` carry -/
 example : VI.dec 0 [0x7f] = .ok 127 [] ∧ VI.dec 0 [0x80, 0x00] = .ok 128 [] ∧ VI.dec 0 [0xff, 0x7f] = .ok 16511 [] ∧
